@@ -172,6 +172,10 @@ fn at_blue_hue_jump(route: &[&Sp], a: &Sp, x: V3) -> bool {
 struct Case {
     /// index into ctx.round or ctx.tri
     k: usize,
+    /// committed replays name the spaces instead (A, B for a round trip; A, C, B for a commutation triple), so that they
+    /// keep their meaning when the conversion matrix grows
+    #[serde(default, skip_serializing_if = "Option::is_none")]
+    route: Option<Vec<String>>,
     x: [f64; 3],
     alpha: f64,
     f32_: bool,
@@ -230,7 +234,7 @@ fn scatter_at(info_in: &SpaceInfo, f: &dyn Fn(V3) -> V3, d: &dyn Fn(V3, V3) -> f
 }
 
 fn round_point(ctx: &Ctx, c: &Case, obs: &mut Obs) -> PropResult {
-    let (iab, iba) = ctx.round[c.k];
+    let (iab, iba) = ctx.round[resolve(ctx, c, false)];
     let (ab, ba) = (&ctx.convs[iab], &ctx.convs[iba]);
     let (a, b) = (&ctx.sps[ab.a], &ctx.sps[ab.b]);
     let (ia, ib) = (&ctx.infos[ab.a], &ctx.infos[ab.b]);
@@ -304,8 +308,18 @@ fn round_point(ctx: &Ctx, c: &Case, obs: &mut Obs) -> PropResult {
     Ok(())
 }
 
+fn resolve(ctx: &Ctx, c: &Case, tri: bool) -> usize {
+    let Some(r) = &c.route else { return c.k };
+    let name = |i: usize| SPACE_NAMES[i];
+    if tri {
+        ctx.tri.iter().position(|(iab, iac, _)| name(ctx.convs[*iab].a) == r[0] && name(ctx.convs[*iac].b) == r[1] && name(ctx.convs[*iab].b) == r[2]).unwrap_or_else(|| panic!("no commutation triple {:?}", r))
+    } else {
+        ctx.round.iter().position(|(iab, _)| name(ctx.convs[*iab].a) == r[0] && name(ctx.convs[*iab].b) == r[1]).unwrap_or_else(|| panic!("no round trip {:?}", r))
+    }
+}
+
 fn tri_point(ctx: &Ctx, c: &Case, obs: &mut Obs) -> PropResult {
-    let (iab, iac, icb) = ctx.tri[c.k];
+    let (iab, iac, icb) = ctx.tri[resolve(ctx, c, true)];
     let (ab, ac, cb) = (&ctx.convs[iab], &ctx.convs[iac], &ctx.convs[icb]);
     let (a, b, m) = (&ctx.sps[ab.a], &ctx.sps[ab.b], &ctx.sps[ac.b]);
     let (ia, ib, im) = (&ctx.infos[ab.a], &ctx.infos[ab.b], &ctx.infos[ac.b]);
@@ -742,7 +756,7 @@ fn main() {
             (0..nr, any::<bool>()).prop_flat_map(move |(k, f32_)| {
                 let (iab, _) = ctxr.round[k];
                 let cv = &ctxr.convs[iab];
-                source(ctxr, cv.a, &[cv.b]).prop_map(move |x| Case { k, x, alpha: 1.0, f32_ })
+                source(ctxr, cv.a, &[cv.b]).prop_map(move |x| Case { k, route: None, x, alpha: 1.0, f32_ })
             })
         },
         |c, obs| round_point(ctxr, c, obs),
@@ -756,7 +770,7 @@ fn main() {
             (0..nt, any::<bool>()).prop_flat_map(move |(k, f32_)| {
                 let (iab, iac, _) = ctxr.tri[k];
                 let (ab, ac) = (&ctxr.convs[iab], &ctxr.convs[iac]);
-                source(ctxr, ab.a, &[ab.b, ac.b]).prop_map(move |x| Case { k, x, alpha: 1.0, f32_ })
+                source(ctxr, ab.a, &[ab.b, ac.b]).prop_map(move |x| Case { k, route: None, x, alpha: 1.0, f32_ })
             })
         },
         |c, obs| tri_point(ctxr, c, obs),
@@ -769,7 +783,7 @@ fn main() {
         || {
             (0..nc, any::<bool>(), unit()).prop_flat_map(move |(k, f32_, alpha)| {
                 let cv = &ctxr.convs[k];
-                source(ctxr, cv.a, &[cv.b]).prop_map(move |x| Case { k, x, alpha, f32_ })
+                source(ctxr, cv.a, &[cv.b]).prop_map(move |x| Case { k, route: None, x, alpha, f32_ })
             })
         },
         |c, obs| alpha_point(ctxr, c, obs),
